@@ -213,9 +213,44 @@ def gen_response(rng, scr, sid, chal, others):
     return "random", bytes(rng.randint(0, 255) for _ in range(16))
 
 
-def gen_client(rng, scr, sid, rev, chal, others):
+def gen_tight_client(rng, scr, sid, rev, chal, others, ver):
+    """a client that chooses security type 16 (TightVNC): everything from the type byte to the response
+    is one message, because the server reads it synchronously inside one rfbProcessClientMessage"""
+    haspw = scr[sid]["kind"] != "none"
+    tags = ["tight-client"]
+    needauth = haspw and not rev
+    r = rng.random()
+    if not needauth:
+        body = b"\x10" + (b"" if r < 0.7 else (2).to_bytes(4, "big"))
+    elif r < 0.55:
+        t, resp = gen_response(rng, scr, sid, chal, others)
+        tags.append("tight-resp-" + t)
+        body = b"\x10" + (2).to_bytes(4, "big") + resp
+    elif r < 0.75:                                  # asks for "no authentication" inside the Tight negotiation
+        a = rng.choice([1, 1, 0, 16, 3, 0x02000000, rng.randrange(2 ** 32)])
+        tags.append("tight-authtype-other")
+        body = b"\x10" + a.to_bytes(4, "big") + gen_response(rng, scr, sid, chal, others)[1]
+    elif r < 0.9:                                   # short: the synchronous read runs into the time-out (100 ms)
+        full = b"\x10" + (2).to_bytes(4, "big") + gen_response(rng, scr, sid, chal, others)[1]
+        body = full[:rng.choice([1, 3, 5, 12, 20])]
+        tags.append("tight-short")
+    else:
+        body = b"\x10" + bytes(rng.randint(0, 255) for _ in range(rng.choice([4, 20, 21])))
+        tags.append("tight-garbage")
+    msgs = [ver, body, bytes([rng.choice([0, 1])])]
+    if rng.random() < 0.15:
+        msgs = [ver + body] + msgs[2:]
+    elif rng.random() < 0.1:
+        msgs = [ver + body + msgs[2]]
+    return msgs, tags
+
+
+def gen_client(rng, scr, sid, rev, chal, others, tight=False):
     """the chunks one client writes, in order -> (list of bytes, tags)"""
     tags = []
+    if tight and rng.random() < 0.5:
+        ver = rng.choice([b"RFB 003.007\n", b"RFB 003.008\n", b"RFB 003.008\n", b"RFB 003.889\n", b"RFB 003.014\n"])
+        return gen_tight_client(rng, scr, sid, rev, chal, others, ver)
     r = rng.random()
     if r < 0.70:
         ver = rng.choice(VERSIONS_STD)
@@ -299,6 +334,16 @@ def gen_script(rng, weak, nconn=None):
     if rng.random() < 0.04:                       # the crypto back-end cannot provide DES at all
         lines.append("cryptofail 1")
         tags.append("cryptofail")
+    # registered security handlers: the TightVNC extension (type 16) and application handlers
+    use_tight = rng.random() < 0.35
+    exts = []
+    if rng.random() < 0.2:
+        exts = rng.sample([5, 30, 1, 2, 16, 18, 77, 255], rng.choice([1, 1, 2]))
+    regs = (["tight 1"] if use_tight else []) + ["ext %d" % t for t in exts]
+    rng.shuffle(regs)
+    lines += regs
+    if regs:
+        tags.append("registered-handlers")
     for cid in range(n):
         ch = bytes(rng.randint(0, 255) for _ in range(16))
         if rng.random() < 0.05:
@@ -308,7 +353,8 @@ def gen_script(rng, weak, nconn=None):
     for cid in range(n):
         sid = rng.choice(pwsids) if (rng.random() < 0.6 or cid == 0) else rng.randrange(len(scr))
         rev = 1 if rng.random() < 0.15 else 0
-        chunks, tg = gen_client(rng, scr, sid, rev, chals[cid], [c for j, c in enumerate(chals) if j != cid])
+        chunks, tg = gen_client(rng, scr, sid, rev, chals[cid], [c for j, c in enumerate(chals) if j != cid],
+                                tight=use_tight)
         conns.append({"cid": cid, "sid": sid, "rev": rev, "chunks": chunks, "started": False,
                       "abrupt": rng.choice([1, 1, 2, 3]) if rng.random() < 0.10 else 0})
         tags += tg
@@ -317,7 +363,16 @@ def gen_script(rng, weak, nconn=None):
     pending = [c for c in conns]
     cur = None
     slow = rng.random() < 0.05
+    tstate = use_tight
     while pending:
+        if regs and rng.random() < 0.05:             # the application (un)registers a handler at run time
+            if use_tight and rng.random() < 0.6:
+                tstate = not tstate
+                lines.append("tight %d" % (1 if tstate else 0))
+            elif exts:
+                t = rng.choice(exts)
+                lines.append(rng.choice(["unext %d", "ext %d"]) % t)     # may be a bad-op: fine
+            tags.append("runtime-registration")
         c = rng.choice(pending)
         if cur != chals[c["cid"]]:
             cur = chals[c["cid"]]
@@ -414,18 +469,23 @@ def gen_brute(rng, weak):
 
 # ------------------------------------------------------------------ direct oracle
 def parse_obs(line):
-    m = re.match(r"c(\d+) (\w+) (open|closed) vo=(\d) out=(\S+)$", line)
+    m = re.match(r"c(\d+) (\w+) (open|closed) vo=(\d) out=(\S+)(?: caps=\d+)?$", line)
     if not m:
         return None
     return int(m.group(1)), m.group(2), m.group(3), int(m.group(4)), unhx(m.group(5))
 
 
+TIGHT_CAP_VNC = (2).to_bytes(4, "big") + b"STDV" + b"VNCAUTH_"
+
+
 def split_server_stream(out, si):
-    """wire-format view of what the server wrote: -> dict(form, challenge, result, si) or None"""
+    """wire-format view of what the server wrote: -> dict(form, offered, challenge, result, si) or None.
+    form: "3.3" (32-bit type), "3.7" (type list), "tight" (type list, then the TightVNC tunnelling and
+    authentication capability messages)."""
+    d = {"form": None, "offered": [], "challenge": None, "result": None, "si": False, "tight_nauth": None}
     if len(out) < 12:
-        return {"form": None, "challenge": None, "result": None, "si": False}
+        return d
     rest = out[12:]
-    d = {"form": None, "challenge": None, "result": None, "si": False}
     if not rest:
         return d
     if rest[:4] in (b"\0\0\0\1", b"\0\0\0\2"):
@@ -434,9 +494,19 @@ def split_server_stream(out, si):
     else:
         cnt = rest[0]
         d["form"] = "3.7"
+        d["offered"] = list(rest[1:1 + cnt])
         rest = rest[1 + cnt:]
         if cnt == 0:
             return d
+        # TightVNC negotiation on a connection that has to authenticate: no tunnelling, exactly one auth
+        # type, VNC.  (A connection that must authenticate and is told "no auth types" is not recognised
+        # here; if it is admitted the oracle finds no challenge and reports it.)
+        # (16 need not be in the list this client was offered: the application may have registered the
+        # extension after the list was sent.)
+        if rest[:24] == bytes(7) + b"\1" + TIGHT_CAP_VNC:
+            d["form"] = "tight"
+            d["tight_nauth"] = 1
+            rest = rest[24:]
     if rest.endswith(si):
         d["si"] = True
         rest = rest[:-len(si)]
@@ -486,12 +556,13 @@ def oracle(script, impl):
             cid = o[0]
             if t[0] == "conn":
                 conns[cid] = {"sid": int(t[2]), "rev": int(t[3]), "sent": unhx(t[4]), "out": b"", "states": [],
-                              "vo": 0, "disturbed": t[4] == "-", "open": True}
+                              "vo": 0, "disturbed": t[4] == "-", "open": True, "bounds": [len(unhx(t[4]))]}
             c = conns.get(cid)
             if c is None:
                 continue
             if t[0] in ("send", "sendnp"):
                 c["sent"] += unhx(t[2])
+                c["bounds"].append(len(c["sent"]))      # the server looked at its input at these points
             if t[0] in ("proc", "close", "sendnp"):
                 c["disturbed"] = True
             c["out"] += o[4]
@@ -512,6 +583,8 @@ def oracle(script, impl):
             resp = c["sent"][12:28]
         elif w is not None and w["form"] == "3.7":
             resp = c["sent"][13:29]
+        elif w is not None and w["form"] == "tight":
+            resp = c["sent"][17:33]                     # type byte, 32-bit auth type, response
         chal = w["challenge"] if w is not None else None
         match = None
         if chal is not None and resp is not None and len(resp) == 16:
@@ -540,7 +613,11 @@ def oracle(script, impl):
         if (not cryptofail and not c["disturbed"] and match is not None and w is not None and
                 ((w["form"] == "3.3" and sent[:12] == b"RFB 003.003\n" and len(sent) == 29) or
                  (w["form"] == "3.7" and sent[:12] in (b"RFB 003.007\n", b"RFB 003.008\n") and sent[12:13] == b"\2"
-                  and len(sent) == 30))):
+                  and len(sent) == 30) or
+                 # TightVNC: type 16, auth type 2 and the response must be there when the server reads them
+                 (w["form"] == "tight" and sent[:12] in (b"RFB 003.007\n", b"RFB 003.008\n") and
+                  sent[12:17] == b"\x10\0\0\0\2" and len(sent) == 34 and
+                  not any(12 < b < 33 for b in c["bounds"])))):
             stats["complete_checked"] += 1
             if not (w["result"] == 0 and w["si"] and c["states"][-1] == "normal" and c["open"]):
                 return ("connection %d sent the correct response for password #%d of screen %d but was not "
@@ -558,6 +635,17 @@ def oracle(script, impl):
             if w is not None and w["form"] == "3.7" and w["challenge"] is None:
                 return ("connection %d chose VNC authentication on password screen %d, as offered, and got no "
                         "challenge (state %s)" % (cid, c["sid"], c["states"][-1]), stats)
+        # the same for a registered type: a client that was offered TightVNC (16) and chooses it with VNC
+        # authentication inside, all in one write, must get its challenge -- unless the application itself
+        # unregistered the extension in between (then the script contains `tight 0`)
+        if (sent[:12] in (b"RFB 003.007\n", b"RFB 003.008\n") and sent[12:17] == b"\x10\0\0\0\2" and
+                len(sent) >= 33 and not any(12 < b < 33 for b in c["bounds"]) and "tight 0" not in ops):
+            w = split_server_stream(c["out"], s["si"])
+            if w is not None and 16 in w["offered"] and w["challenge"] is None and \
+                    not any(o.startswith("ext 16") for o in ops):
+                return ("connection %d was offered security type 16 on password screen %d, chose it with VNC "
+                        "authentication, and got no challenge (state %s): a registered handler vanished"
+                        % (cid, c["sid"], c["states"][-1]), stats)
     return None, stats
 
 
@@ -601,11 +689,24 @@ def gen_des_script(rng, weak, n):
 
 def des_oracle(script, impl):
     """the compiled back-end against OpenSSL (no model involved)"""
-    ops = script.splitlines()
+    ops = [l for l in script.splitlines() if l and not l.startswith("#")]
     if len(ops) != len(impl):
         return None
+    cf = False
     for op, ob in zip(ops, impl):
         t = op.split()
+        if t[0] == "cryptofail":
+            cf = t[1] == "1"
+            continue
+        if cf:
+            # the back-end cannot encrypt: nothing may come out as if it had, and above all the password
+            # file must not be written with the plaintext
+            if t[0] == "store" and ob != "store-failed nofile":
+                return ("%s with a failing crypto back-end -> %s (padded plaintext: %s); expected failure "
+                        "without a file" % (op, ob, hx((unhx(t[1]) + bytes(8))[:8])))
+            if t[0] == "load" and ob != "null":
+                return "%s with a failing crypto back-end -> %s, expected null" % (op, ob)
+            continue
         if t[0] == "des":
             want = "1 " + hx(des_blocks(bytes(_rev(b) for b in unhx(t[1])), unhx(t[2])))
         elif t[0] == "undes":
@@ -689,13 +790,7 @@ def run(ctx):
             else:
                 s, tg = gen_script(ctx.rng, weak)
             scripts.append((s, tg, "generated"))
-    # With the injected crypto failure rfbDecryptPasswdFromFile leaks its 9-byte buffer (vncauth.c: `return
-    # NULL` without free after a failed decrypt_rfbdes): a resource defect outside this property (reported
-    # in docs/C05.md), so LeakSanitizer is switched off for exactly those scripts.
-    noleak = {"ASAN_OPTIONS": "detect_leaks=0:abort_on_error=0:allocator_may_return_null=1"}
-    results = common.pmap(lambda sc: common.compare_streams(
-        ctx, sc[0], h, d, "auth.handshake", timeout=120,
-        env=noleak if "\ncryptofail 1\n" in sc[0] else None), scripts)
+    results = common.pmap(lambda sc: common.compare_streams(ctx, sc[0], h, d, "auth.handshake", timeout=120), scripts)
     evals = 0
     for (script, tags, what), res in zip(scripts, results):
         evals += 1
